@@ -99,8 +99,16 @@ func c18Same(k []byte, v y.ValueStruct, want c18Entry) bool {
 		v.UserMeta == want.v.UserMeta && v.ExpiresAt == want.v.ExpiresAt
 }
 
+func c18Key(k []byte) string {
+	uk := y.ParseKey(k)
+	if len(uk) > 24 {
+		return fmt.Sprintf("%q..%q(len %d)@%d", uk[:8], uk[len(uk)-4:], len(uk), y.ParseTs(k))
+	}
+	return fmt.Sprintf("%q@%d", uk, y.ParseTs(k))
+}
+
 func c18Fmt(k []byte, v y.ValueStruct) string {
-	return fmt.Sprintf("%q@%d(meta %x um %x exp %d len %d)", y.ParseKey(k), y.ParseTs(k), v.Meta, v.UserMeta, v.ExpiresAt, len(v.Value))
+	return fmt.Sprintf("%s(meta %x um %x exp %d len %d)", c18Key(k), v.Meta, v.UserMeta, v.ExpiresAt, len(v.Value))
 }
 
 type c18Iter interface {
@@ -162,7 +170,7 @@ func c18CheckIter(name string, mk func(reversed bool) c18Iter, ents []c18Entry, 
 				from = sort.Search(len(exp), func(i int) bool { return y.CompareKeys(exp[i].key, p) <= 0 })
 			}
 			it.Seek(p)
-			if s := walk(it, from, fmt.Sprintf("Seek(%q@%d)", y.ParseKey(p), y.ParseTs(p))); s != "" {
+			if s := walk(it, from, "Seek("+c18Key(p)+")"); s != "" {
 				it.Close()
 				return s
 			}
@@ -442,7 +450,7 @@ func init() {
 			e.do("large", func() (string, string) {
 				bigKey := bytes.Repeat([]byte("K"), 65000)
 				ents := []c18Entry{
-					{key: y.KeyWithTs([]byte("a"), 1), v: y.ValueStruct{Value: []byte("x")}},
+					{key: y.KeyWithTs([]byte("A"), 1), v: y.ValueStruct{Value: []byte("x")}}, // "A" sorts before the run of K
 					{key: y.KeyWithTs(bigKey, 9), v: y.ValueStruct{Value: bytes.Repeat([]byte("v"), 64<<10), UserMeta: 3}},
 					{key: y.KeyWithTs(bigKey, 2), v: y.ValueStruct{Value: nil, Meta: bitDelete}},
 					{key: y.KeyWithTs(append(append([]byte{}, bigKey[:64999]...), 'L'), 1), v: y.ValueStruct{Value: []byte("tail")}},
